@@ -3,6 +3,7 @@ package main
 import (
 	"fmt"
 	"go/ast"
+	"go/constant"
 	"go/token"
 	"go/types"
 	"golang.org/x/tools/go/ssa"
@@ -281,6 +282,10 @@ func (c *Ctx) tlSchema() {
 				continue
 			}
 			idOK, innerOK := false, false
+			var info *types.Info
+			if lp := c.pkg("liteclient"); lp != nil {
+				info = lp.TypesInfo
+			}
 			ast.Inspect(fd.Body, func(n ast.Node) bool {
 				switch x := n.(type) {
 				case *ast.BasicLit:
@@ -290,6 +295,14 @@ func (c *Ctx) tlSchema() {
 				case *ast.Ident:
 					if x.Name == camel(d.name)+"C" {
 						innerOK = true
+					}
+					// the id spelt as a named constant
+					if info != nil {
+						if tv, ok := info.Types[x]; ok && tv.Value != nil && tv.Value.Kind() == constant.Int {
+							if v, ok := constant.Uint64Val(tv.Value); ok && uint32(v) == d.id && v>>32 == 0 {
+								idOK = true
+							}
+						}
 					}
 				}
 				return true
